@@ -11,6 +11,10 @@ os.environ.setdefault('PYTHONWARNINGS', 'ignore')
 
 
 def main():
+    import logging
+    import warnings
+    logging.disable(logging.CRITICAL)
+    warnings.simplefilter('ignore')
     ap = argparse.ArgumentParser()
     ap.add_argument('pid')
     ap.add_argument('--tier', default=os.environ.get('VERIF_TIER', 'quick'))
